@@ -124,6 +124,8 @@ const (
 	OFFloor
 	OFCeil
 	OFTrunc
+	OFRoundAway
+	OFRoundEven
 	OFToSBV  // aux width, RTZ
 	OFToUBV  // aux width, RTZ
 	OFFromS  // from signed bv, RNE
@@ -940,6 +942,7 @@ var opSMT = map[Op]string{
 	OFNeg: "fp.neg", OFAbs: "fp.abs", OFSqrt: "fp.sqrt RNE", OFLt: "fp.lt", OFLe: "fp.leq", OFEq: "fp.eq",
 	OFIsNaN: "fp.isNaN", OFIsInf: "fp.isInfinite", OFFloor: "fp.roundToIntegral RTN",
 	OFCeil: "fp.roundToIntegral RTP", OFTrunc: "fp.roundToIntegral RTZ",
+	OFRoundAway: "fp.roundToIntegral RNA", OFRoundEven: "fp.roundToIntegral RNE",
 	OFFromS: "(_ to_fp 11 53) RNE", OFFromU: "(_ to_fp_unsigned 11 53) RNE",
 	OFFromBits: "(_ to_fp 11 53)",
 	ORAdd:      "+", ORSub: "-", ORMul: "*", ORDiv: "/", ORNeg: "-", ORLt: "<", ORLe: "<=",
